@@ -41,6 +41,11 @@ pub(crate) fn write_to_file(file: &str, data: &[u8], append: bool) -> Result<(),
 }
 
 pub(crate) fn create_empty_file(file: &str) -> Result<(), String> {
+    // the parent directories first: once they exist, a path through one of them may name a file that is already there
+    if let Err(error) = fsio::directory::create_parent(file) {
+        return Err(error.to_string());
+    }
+
     match ensure_exists(file) {
         Ok(_) => Ok(()),
         Err(error) => Err(error.to_string()),
